@@ -5,7 +5,8 @@ mod example;
 
 use std::io::prelude::*;
 use std::borrow::Borrow;
-use std::net::{IpAddr, SocketAddr, TcpListener};
+use std::net::{IpAddr, Shutdown, SocketAddr, TcpListener, TcpStream};
+use std::time::{Duration, Instant};
 use std::str::FromStr;
 
 use crate::request::{METHOD, Request};
@@ -241,6 +242,26 @@ impl Server {
         Ok((listener, pool))
     }
 
+    // request is read into a buffer of fixed size, client may have sent more than that. Closing a socket
+    // with unread input resets the connection and the peer loses the part of the response it did not
+    // read yet, so the sending side is closed first and the rest of the input is discarded (bounded)
+    fn close_after_draining_input(mut stream: TcpStream) {
+        let _ = stream.shutdown(Shutdown::Write);
+        let deadline = Instant::now() + Duration::from_secs(2);
+        let mut buffer = [0; 4096];
+        loop {
+            let now = Instant::now();
+            if now >= deadline {
+                break;
+            }
+            let _ = stream.set_read_timeout(Some(deadline - now));
+            let boxed_read = stream.read(&mut buffer);
+            if boxed_read.is_err() || boxed_read.unwrap() == 0 {
+                break;
+            }
+        }
+    }
+
     pub fn run(listener : TcpListener,
                pool: ThreadPool,
                app: impl Application + New + Send + 'static + Copy) {
@@ -290,11 +311,12 @@ impl Server {
 
 
             pool.execute(move || {
-                let boxed_process = Server::process(stream, connection, app);
+                let boxed_process = Server::process(&stream, connection, app);
                 if boxed_process.is_err() {
                     let message = boxed_process.err().unwrap();
                     eprintln!("{}", message);
                 }
+                Server::close_after_draining_input(stream);
             });
 
         }
